@@ -136,6 +136,7 @@ def level1(run):
                        depth=20, timeout=900)
     if not behs or not sim:
         raise vlib.InfraError("no NodePoolState call sequences generated")
+    sim = sim[:UNIT_SIM[run.tier]]      # TLC's simulator restarts after every depth-bounded run and yields more than asked
     allb = behs + sim
     for b in allb:
         ms = [c["m"] for c in b]
@@ -163,7 +164,7 @@ def level2(run, cex):
     if not hs:
         raise vlib.InfraError("TLC simulated no StaticPool behaviours")
     gcfg = ctl_cfg(run, "StaticPool_Gen.cfg", probe=True)
-    behs += [{"cfg": gcfg, "steps": h, "tag": "tlc-sim"} for h in hs]
+    behs += [{"cfg": gcfg, "steps": h, "tag": "tlc-sim"} for h in hs[:n]]
     return behs
 
 
